@@ -85,6 +85,18 @@ Valids == <<
   Nest(<<"secrets", "s">>, M1("driver", S("custom"))),
   Nest(<<"services", "b">>, M1("depends_on", M1("off", OptDep)))
 >>
+\* the paired settings next to every partial shape of the deploy section: nothing to disagree with, so the model stays consistent
+PairAttrs == {<<"mem_reservation", S("1g")>>, <<"mem_limit", S("1g")>>, <<"cpus", S("1")>>, <<"pids_limit", I(5)>>, <<"scale", I(2)>>}
+DeployShapes == {EmptyM, M1("resources", EmptyM),
+                 M1("resources", M1("limits", M1("memory", S("2g")))), M1("resources", M1("reservations", M1("memory", S("2g")))),
+                 M1("resources", M1("limits", M1("cpus", S("2")))), M1("resources", M1("reservations", M1("cpus", S("0.5")))),
+                 M1("resources", M1("limits", M1("pids", I(9)))), M1("mode", S("replicated"))}
+\* (attribute, deploy shape) pairs in which both sides name the same limit are the disagreeing edits above, not valid variants
+SameLimit(a, d) == \/ (a[1] = "mem_limit" /\ d = M1("resources", M1("limits", M1("memory", S("2g")))))
+                   \/ (a[1] = "mem_reservation" /\ d = M1("resources", M1("reservations", M1("memory", S("2g")))))
+                   \/ (a[1] = "cpus" /\ d = M1("resources", M1("limits", M1("cpus", S("2")))))
+                   \/ (a[1] = "pids_limit" /\ d = M1("resources", M1("limits", M1("pids", I(9)))))
+PairValids == {SvcA(M2(p[1][1], p[1][2], "deploy", p[2])) : p \in {q \in PairAttrs \X DeployShapes : ~SameLimit(q[1], q[2])}}
 VARIABLE cs
 Init == \/ \E i \in 1..Len(Edits) : cs = [kind |-> "edit", rule |-> Edits[i].r, base |-> Base, fragment |-> Edits[i].f, fragment2 |-> Null, doc |-> Override(Base, Edits[i].f),
                                           broken |-> Broken(Override(Base, Edits[i].f))]
@@ -94,6 +106,7 @@ Init == \/ \E i \in 1..Len(Edits) : cs = [kind |-> "edit", rule |-> Edits[i].r, 
                                         cs = [kind |-> "edit", rule |-> Edits2[i].r, base |-> Base, fragment |-> Edits2[i].f, fragment2 |-> Edits2[i].f2, doc |-> d, broken |-> Broken(d)]
         \/ \E i \in 1..Len(Valids2) : LET d == Override(Override(Base, Valids2[i].f), Valids2[i].f2) IN
                                          cs = [kind |-> "valid", rule |-> "none", base |-> Base, fragment |-> Valids2[i].f, fragment2 |-> Valids2[i].f2, doc |-> d, broken |-> Broken(d)]
+        \/ \E v \in PairValids : cs = [kind |-> "valid", rule |-> "none", base |-> Base, fragment |-> v, fragment2 |-> Null, doc |-> Override(Base, v), broken |-> Broken(Override(Base, v))]
         \/ cs = [kind |-> "valid", rule |-> "none", base |-> Base, fragment |-> EmptyM, fragment2 |-> Null, doc |-> Base, broken |-> Broken(Base)]
 Next == UNCHANGED cs
 Spec == Init /\ [][Next]_cs
